@@ -8,6 +8,12 @@ import runlevel as rl
 from common import Verdict, run_tlc, require_tlc_ok, log
 
 S = rl.S
+
+
+def bl_lock_text(n):
+    return rl.bl.LOCK_HEADER + "next_reference_id: %d\n" % n
+
+
 EXTRA = {"notes.txt": "not a source file\n", "src/readme.md": "out of scope\n"}
 
 
@@ -130,6 +136,66 @@ def replay_model_histories(binary, hists, batch, v):
                 i, mrefs, mh["lock"], rrefs, fin["lock"]))
 
 
+LT_LINE = {"header": "# This file is maintained by Breadlog, a comment line", "blank": "", "value": "next_reference_id: {v}",
+           "valuecmt": "next_reference_id: {v} # bumped by hand", "valuesp": "next_reference_id:    {v}   ",
+           "otherkey": "some_other_key: 1", "garbage": "this is not, a mapping", "conflict": "<<<<<<< HEAD",
+           "longtail": "# " + "x" * 300}
+LT_VALUE = {"small": "7", "max": "4294967295", "zero": "0", "over": "4294967296", "neg": "-7", "word": "abc", "empty": "",
+            "float": "7.5", "quoted": '"7"', "plus": "+7", "hex": "0x7", "lead0": "007"}
+
+
+def _locktext_job(job):
+    binary, case = job
+    f = case["f"]
+    nl = "\r\n" if f["ending"] == "crlf" else "\n"
+    lines = [LT_LINE[k].format(v=LT_VALUE[f["v"]]) for k in f["lines"]]
+    text = nl.join(lines) + (nl if (f["final"] == "nl" and lines) else "")
+    P = rl.bl.Project(tag="lt")
+    try:
+        P.write_sources({"f1.rs": rl.bl.render_file("f1.rs", [S(11)], False), "f2.rs": rl.bl.render_file("f2.rs", [S(21, ref=3)], False)})
+        with open(P.lock_path, "w", newline="") as fh:
+            fh.write(text)
+        r = rl.bl.run_breadlog(binary, P.config_path, tmpdir=P.tmp, shim=False, timeout=60)
+        after = rl.bl.abstract_file(P.read_sources()["f1.rs"].decode("utf-8", "replace"), False)
+        got = after[0]["ref"] if after else None
+        return {"exit": r.exit_class, "id": got, "lock_after": P.get_lock(), "text": text}
+    finally:
+        P.close()
+
+
+def locktext_step(v, binary, tier):
+    """C16: every lock file text LockText.tla enumerates whose reading the property decides: a usable value makes the run
+    start from it, anything unparsable makes it scan the code (largest ID + 1); either way the run leaves a lock that
+    parses to the next ID."""
+    import multiprocessing
+    cfg = "intended/LockTextT.cfg" if tier == "thorough" else "intended/LockTextQ.cfg"
+    r = run_tlc("LockText.tla", cfg, workers=4, coverage=False)
+    require_tlc_ok(r, cfg)
+    v.add_tlc(r, cfg)
+    cases = [c for c in tlc_dump(r, "LOCK") if c["reading"] != "any" and not (c["reading"] == "value" and c["f"]["v"] != "small")]
+    vals = [c for c in cases if c["reading"] == "value"]
+    ign = [c for c in cases if c["reading"] == "ignored"]
+    if tier != "thorough":
+        rnd = random.Random(common.seed() + 5)
+        rnd.shuffle(ign)
+        ign = ign[:1500]
+    chosen = vals + ign
+    log("[tlc] %s: %d lock texts decided by the property (%d usable, %d unusable) replayed" % (cfg, len(chosen), len(vals), len(ign)))
+    with multiprocessing.get_context("fork").Pool(max(2, min(common.NCPU - 2, 14))) as pool:
+        results = pool.map(_locktext_job, [(binary, c) for c in chosen], chunksize=32)
+    for c, res in zip(chosen, results):
+        v.evaluated(("locktext", json.dumps(c["f"], sort_keys=True)))
+        want = 7 if c["reading"] == "value" else 4
+        ok = res["exit"] == 0 and res["id"] == want and res["lock_after"] == want + 1
+        if not ok:
+            v.violation({"check": "LockReading", "reading": c["reading"], "value": c["f"]["v"], "ending": c["f"]["ending"],
+                         "lines": ",".join(c["f"]["lines"])},
+                        "C16: lock text %r (%s): expected the new reference to be %d and the lock to read %d afterwards; exit %s, "
+                        "reference %s, lock %s" % (res["text"][:120], c["reading"], want, want + 1, res["exit"], res["id"], res["lock_after"]),
+                        {"lock_text": res["text"], "case": c, "observed": {k: res[k] for k in ("exit", "id", "lock_after")}})
+    v.cov["lock_texts"] = len(chosen)
+
+
 def env_step(v, binary, batch, tier, mode="edit", follow="c02"):
     """Environments enumerated by Env.tla (TMPDIR kind x spelling of the configuration path x spelling of source_dir x
     style x lock), each replayed as check, edit, check (+ developer edits and further runs).  The properties are judged
@@ -146,7 +212,8 @@ def env_step(v, binary, batch, tier, mode="edit", follow="c02"):
         tree = {"f1.rs": [S(11), S(12, ref=3)], "f2.rs": [S(21), S(22)]}
         sc = rl.Scenario("env-%s-%s-%s-%s-%s" % (e["tmp"], e["cfg"], e["srcdir"], e["style"], e["lock"]), tree,
                          lock=(None if e["lock"] == "absent" else 10), structured=(e["style"] == "structured"),
-                         env={"tmp": e["tmp"], "cfg": e["cfg"], "srcdir": e["srcdir"]})
+                         env={"tmp": e["tmp"], "cfg": e["cfg"], "srcdir": e["srcdir"]},
+                         head_style=("plain", "gap_before_bang", "gap_after_bang", "comment_before_bang")[n % 4])
         steps = [("check", ""), ("edit", ""), ("check", "")] if mode == "edit" else [("check", "")]
         res = rl.planned_runs(binary, sc, [steps], batch, v, follow=(follow if mode == "edit" else None),
                               sigbase={"env_tmp": e["tmp"], "env_cfg": e["cfg"], "env_srcdir": e["srcdir"]})
@@ -222,6 +289,13 @@ def c01(tier):
             scen_steps.append(rl.Scenario("unordered-ids", {"f1.rs": [S(11, ref=1), S(12, ref=7), S(13, ref=3), S(14)],
                                                             "f2.rs": [S(21), S(22, ref=5), S(23, ref=2)]},
                                           lock=lock, use_cache=cache, structured=structured))
+    # source spelling: every statement of the tree written with a gap or a comment around the `!` (no file contains
+    # the text `name!(`); the file that carries the existing IDs is spelled like that too
+    for hs in ("gap_before_bang", "gap_after_bang", "comment_before_bang"):
+        for structured in (False, True):
+            for cache, lock in ((None, None), (False, 2)):
+                scen_steps.append(rl.Scenario("head-" + hs, {"f1.rs": [S(11, ref=1), S(12, ref=7), S(13, ref=3)], "f2.rs": [S(21), S(22)]},
+                                              lock=lock, use_cache=cache, structured=structured, head_style=hs))
     # run them (one edit run each), in parallel
     import multiprocessing
     jobs = [{"binary": binary, "scen": sc, "steps": [("edit", "")], "follow": None} for sc in scen_steps]
@@ -234,6 +308,16 @@ def c01(tier):
         v.sample({"tree": sc.tree, "lock": sc.kw["lock"], "use_cache": sc.kw["use_cache"], "structured": sc.kw["structured"],
                   "exits": res["exits"], "after": res["final"]})
     env_step(v, binary, batch, tier)
+    # "every ID inserted by an edit run" also covers runs in which some file could not be updated: write failures at
+    # every temp-file operation, several files with several statements each, small and larger than the write cache
+    for structured in (False, True):
+        for pad in (0, 60000):
+            sc = rl.Scenario("faulted-run", {"f0.rs": [S(1, ref=1), S(2, ref=2)], "f1.rs": [S(11), S(12), S(13)],
+                                             "f2.rs": [S(21), S(22), S(23)], "f3.rs": [S(31), S(32), S(33)]},
+                             lock=None, structured=structured, pad=pad)
+            kinds = ["ENOSPC", "EIO", "short"] if tier == "thorough" else ["ENOSPC"]
+            K, n = rl.sweep(binary, sc, "edit", kinds, batch, v, only_ops=("tmp.create", "tmp.write", "tmp.rename"))
+            log("[sweep] %s pad=%d: %d operations, %d runs" % (sc.name, pad, K, n))
     log("[replay] %d pre-state executions (%d model pre-states with something to insert, of %d)" % (len(jobs), len(chosen), len(pre)))
     batch.judge(v, {"C01"})
     v.cov["exhaustive"] = (tier == "thorough")
@@ -286,6 +370,21 @@ def c02(tier):
                 sc = rl.Scenario("env-" + "-".join(env), {"f1.rs": [S(11), S(12, ref=3)], "f2.rs": [S(21), S(22)]},
                                  lock=lock, structured=structured, **env)
                 rl.planned_runs(binary, sc, [[("edit", "")]], batch, v, follow="c02", sigbase=dict(env))
+    # the lock as an editor, a merge or a checkout can leave it: CRLF line endings, a trailing comment, a long comment
+    # line (the file is longer than what Breadlog writes), extra blanks - all valid spellings of the same value
+    LOCKS = {"crlf": bl_lock_text(10).replace("\n", "\r\n"),
+             "trailing-comment": bl_lock_text(10).rstrip("\n") + "   # bumped by hand, do not lower this value again please\n",
+             "long-comment": bl_lock_text(10) + "# " + "x" * 300 + "\n",
+             "blanks": "\n\nnext_reference_id:    10   \n\n\n"}
+    for structured in (False, True):
+        for name, text in LOCKS.items():
+            sc = rl.Scenario("lock-" + name, {"f1.rs": [S(11), S(12, ref=3)], "f2.rs": [S(21), S(22)]}, lock=text, structured=structured)
+            rl.planned_runs(binary, sc, [[("edit", "")]], batch, v, follow="c02", sigbase={"lock_text": name})
+    # statements that cannot take a reference (non-literal ref value) before statements that need one, in the same file
+    for lock in (None, 10):
+        sc = rl.Scenario("unusable-first", {"f1.rs": [S(11, kind="unusable"), S(12), S(13, kind="unusable"), S(14)],
+                                            "f2.rs": [S(21), S(22, kind="unusable"), S(23)]}, lock=lock, structured=True)
+        rl.planned_runs(binary, sc, [[("edit", "")]], batch, v, follow="c02")
     env_step(v, binary, batch, tier)
     batch.judge(v, {"C02"})
     v.cov["rule"] = ("(a) behaviours of BreadlogRun (developer edits and runs) obtained by TLC simulation and replayed end to "
@@ -605,7 +704,9 @@ def c08(tier):
     scens.append(rl.Scenario("long-tail", {"f1.rs": [S(11)], "f2.rs": [S(21, ref=2)]}, pad=120000, pad_mode="tail"))
     if tier == "thorough":
         scens.append(rl.sized_tree("sized-300k", 300000, structured=True))
-    tmpops = ("tmp.create", "tmp.write", "tmp.rename", "tmp.fsync", "tmp.unlink")
+    tmpops = ("tmp.create", "tmp.write", "tmp.rename", "tmp.fsync", "tmp.unlink",
+              # the lock file may be written through a scratch file of its own
+              "lock.create", "lock.write", "lock.rename", "lock.fsync")
     if tier == "thorough":
         scens.append(rl.Scenario("five-files", {"f%d.rs" % i: [S(10 * i + 1), S(10 * i + 2, ref=i)] for i in range(1, 6)}, structured=False))
         scens += rl.small_trees(structured=False, lock=30)
@@ -674,6 +775,7 @@ def c16(tier):
         rl.sweep(binary, sc, "edit", ["TERM", "INT"], batch, v)
         rl.sweep(binary, sc, "edit", ["EIO"], batch, v, only_ops=("tmp.create", "tmp.write", "tmp.rename"))
     env_step(v, binary, batch, tier, follow="c02")
+    locktext_step(v, binary, tier)
     batch.judge(v, {"C16"})
     v.cov["exhaustive"] = True
     v.cov["rule"] = ("all combinations of use_cache {omitted,true,false} x structured {omitted,false,true} x extensions {omitted,[rs]} x "
